@@ -535,7 +535,7 @@ func c13CLI(c *fw.Ctx) fw.Outcome {
 }
 
 func init() {
-	libN := func(tier string) int64 { return tierN(tier, 12000, 400000) }
+	libN := func(tier string) int64 { return tierN(tier, 12000, 1200000) }
 	cliN := func(tier string) int64 { return tierN(tier, 96, 1000) }
 	fw.Register(&fw.Property{
 		ID:          "C13",
